@@ -48,7 +48,7 @@ fn main() {
     let args: Vec<String> = std::env::args().collect();
     let seed: u64 = args[1].parse().unwrap();
     let n: usize = args[2].parse().unwrap();
-    std::panic::set_hook(Box::new(|_| {}));
+    ezpz_verif_harness::oracle::arm_crash_reporter("C12");
     let mut rng = Rng::new(seed);
     let mut out: Vec<Violation> = Vec::new();
     let (mut systems, mut perms, mut renums, mut compared) = (0usize, 0usize, 0usize, 0usize);
@@ -70,6 +70,7 @@ fn main() {
             sys = with_priorities(&mut rng, sys);
         }
         systems += 1;
+        ezpz_verif_harness::oracle::note_current(&sys);
         let base = solve_analysis(&sys.reqs, sys.guesses.clone(), sys.config());
         let Ok(base) = base else { continue };
         if base.outcome.iterations() > 20 {
